@@ -87,10 +87,15 @@ func (g *GettyRemoting) sendAsync(session getty.Session, msg message.RpcMessage,
 		return nil, fmt.Errorf("session is closed")
 	}
 	resp := message.NewMessageFuture(msg)
-	g.futures.Store(msg.ID, resp)
+	// only a caller that waits for the answer needs (and later removes) a pending future
+	if callback != nil {
+		g.futures.Store(msg.ID, resp)
+	}
 	_, _, err = session.WritePkg(msg, time.Duration(0))
 	if err != nil {
-		g.futures.Delete(msg.ID)
+		if callback != nil {
+			g.futures.Delete(msg.ID)
+		}
 		log.Errorf("send message: %#v, session: %s", msg, session.Stat())
 		return nil, err
 	}
@@ -128,7 +133,11 @@ func (g *GettyRemoting) NotifyRpcMessageResponse(rpcMessage message.RpcMessage) 
 		messageFuture.Response = rpcMessage.Body
 		// todo add messageFuture.Err
 		// messageFuture.Err = rpcMessage.Err
-		messageFuture.Done <- struct{}{}
+		select {
+		case messageFuture.Done <- struct{}{}:
+		default:
+			// the caller already has its answer or gave up: never block message processing
+		}
 		// client.msgFutures.Delete(rpcMessage.RequestID)
 	} else {
 		log.Infof("msg: {} is not found in msgFutures.", rpcMessage.ID)
